@@ -57,6 +57,7 @@ type c06Inst struct {
 	own    c06Own
 	rg     partitioning.KeyGroupRange
 	dirty  bool                              // written since the last forced rotation (an empty memtable is never rotated by the code itself)
+	loaded map[string]bool                   // files of the tables the instance was opened with
 	states map[int]*operator.KeyedStateStore // by key-group count (as Operator.HandleDeploy builds them)
 	timers map[int]*operator.TimerStore
 }
@@ -85,7 +86,8 @@ type c06World struct {
 	dir     string
 	insts   map[int]*c06Inst
 	handles map[string]recovery.CheckpointHandle
-	keep    []any // everything that must stay reachable until the case ends (table cleanups delete files)
+	dumps   map[string]string // the document behind a handle as it was when the checkpoint was taken
+	keep    []any             // everything that must stay reachable until the case ends (table cleanups delete files)
 
 	// cluster mode: real operators on a local directory (operators of a memory:// location do not share files)
 	tmp     string
@@ -431,8 +433,14 @@ func c06Deploy(kgc, n int, from []partitioning.KeyGroupRange) string {
 }
 
 func (w *c06World) newDB(id int, lo, hi, mem, target int, cfg c07Cfg, handles []recovery.CheckpointHandle) *c06Inst {
+	return w.newDBIn(id, id, lo, hi, mem, target, cfg, handles)
+}
+
+// newDBIn opens instance `id` in the directory of instance `dirOf` (an operator that keeps running across a rescale keeps
+// its id and with it its directory: it restores INTO the directory that already holds its old table files)
+func (w *c06World) newDBIn(id, dirOf int, lo, hi, mem, target int, cfg c07Cfg, handles []recovery.CheckpointHandle) *c06Inst {
 	own := c06Own{operator.VerifNewOperatorPartition(partitioning.KeyGroupRange{Start: lo, End: hi})}
-	fs := w.root.WithWorkingDir(fmt.Sprintf("%s/i%d", w.dir, id))
+	fs := w.root.WithWorkingDir(fmt.Sprintf("%s/i%d", w.dir, dirOf))
 	db := dkv.New(dkv.DBOptions{FileSystem: fs, MemTableSize: uint64(mem), TargetFileSize: uint64(target), L0TableNumCompactionTrigger: cfg.l0, DataOwnership: own,
 		Logger: slog.New(slog.NewTextHandler(io.Discard, nil))})
 	comp := db.VerifCompactor()
@@ -444,7 +452,12 @@ func (w *c06World) newDB(id int, lo, hi, mem, target int, cfg c07Cfg, handles []
 	}
 	c06Wait(db)
 	in := &c06Inst{db: db, own: own, rg: partitioning.KeyGroupRange{Start: lo, End: hi},
-		states: map[int]*operator.KeyedStateStore{}, timers: map[int]*operator.TimerStore{}}
+		states: map[int]*operator.KeyedStateStore{}, timers: map[int]*operator.TimerStore{}, loaded: map[string]bool{}}
+	for _, lvl := range db.VerifLevels().VerifLayout() {
+		for _, ti := range lvl {
+			in.loaded[ti.URI] = true
+		}
+	}
 	w.insts[id] = in
 	return in
 }
@@ -502,7 +515,13 @@ func (w *c06World) dumpCkpt(h recovery.CheckpointHandle) string {
 			for _, td := range l {
 				t := sst.NewTableFromDocument(fs, c06Own{}, td)
 				w.keep = append(w.keep, t)
-				ts = append(ts, dumpTable(t))
+				num := int64(-1)
+				if i := strings.LastIndex(td.URI, "/"); i >= 0 {
+					if n, ok := sst.TableFileID(td.URI[i+1:]); ok {
+						num = n
+					}
+				}
+				ts = append(ts, fmt.Sprintf("%d~%s", num, dumpTable(t))) // file number ~ entries
 			}
 			if len(ts) == 0 {
 				levels[i] = "e"
@@ -543,6 +562,9 @@ func c06DocTriples(dump string) (tables, walEntries []string) {
 			continue
 		}
 		for _, t := range strings.Split(lvl, "|") {
+			if i := strings.Index(t, "~"); i >= 0 {
+				t = t[i+1:]
+			}
 			for _, e := range strings.Split(t, ";") {
 				p := strings.Split(e, ":")
 				if len(p) == 4 {
@@ -595,7 +617,7 @@ func runC06(c lib.Case) []string {
 	defer c06Mu.Unlock()
 	cfg := parseC07Header(c.Header)
 	c06Seq++
-	w := &c06World{root: storage.NewMemoryFilesystem(), dir: fmt.Sprintf("c06-%d", c06Seq), insts: map[int]*c06Inst{}, handles: map[string]recovery.CheckpointHandle{}}
+	w := &c06World{root: storage.NewMemoryFilesystem(), dir: fmt.Sprintf("c06-%d", c06Seq), insts: map[int]*c06Inst{}, handles: map[string]recovery.CheckpointHandle{}, dumps: map[string]string{}}
 	defer func() {
 		for _, in := range w.insts {
 			c06Wait(in.db)
@@ -614,7 +636,7 @@ func runC06(c lib.Case) []string {
 		f := strings.Fields(op)
 		var in *c06Inst
 		switch f[0] {
-		case "put", "del", "settle", "ckpt", "get", "scan", "scanown", "seq", "sput", "sdel", "sget", "tput", "tearliest", "leak", "rot", "cckpt", "hput", "hdel", "htimer", "hwm":
+		case "put", "del", "settle", "ckpt", "get", "scan", "scanown", "seq", "sput", "sdel", "sget", "tput", "tearliest", "leak", "rot", "cckpt", "hput", "hdel", "htimer", "hwm", "freshnames":
 			in = w.insts[atoi(f[1])]
 			if in == nil {
 				out = append(out, "no-instance")
@@ -714,7 +736,8 @@ func runC06(c lib.Case) []string {
 				out = append(out, "ack-range-mismatch")
 				continue
 			}
-			out = append(out, w.dumpCkpt(h))
+			w.dumps[f[1]+":"+f[2]] = w.dumpCkpt(h)
+			out = append(out, w.dumps[f[1]+":"+f[2]])
 		case "cdeploy": // cdeploy first kgc N cid acks: real Assembly.Deploy of N new real operators from the job checkpoint
 			if err := w.cluster(); err != nil {
 				out = append(out, "err tmpdir")
@@ -761,7 +784,22 @@ func runC06(c lib.Case) []string {
 			uris := make([][]string, n)
 			adapters := make([]proto.Operator, n)
 			opsNew := make([]*operator.Operator, n)
+			// f[6] (optional): for every new position the instance id of an operator of the previous generation that keeps
+			// running and takes that position (same Operator object, same id, same directory), or "-" for a new operator
+			var reuse []string
+			if len(f) > 6 {
+				reuse = strings.Split(f[6], ",")
+			}
 			for i := 0; i < n; i++ {
+				if i < len(reuse) && reuse[i] != "-" {
+					if old := w.ops[atoi(reuse[i])]; old != nil {
+						opsNew[i] = old
+						w.ops[first+i] = old
+						w.names[first+i] = w.names[atoi(reuse[i])]
+						adapters[i] = &c06RealOp{id: w.names[first+i], op: old, mu: mu, uris: &uris[i]}
+						continue
+					}
+				}
 				op, name := w.newOperator(first + i)
 				opsNew[i] = op
 				adapters[i] = &c06RealOp{id: name, op: op, mu: mu, uris: &uris[i]}
@@ -840,8 +878,9 @@ func runC06(c lib.Case) []string {
 				continue
 			}
 			w.handles[f[1]+":"+f[2]] = h
-			out = append(out, w.dumpCkpt(h))
-		case "open":
+			w.dumps[f[1]+":"+f[2]] = w.dumpCkpt(h)
+			out = append(out, w.dumps[f[1]+":"+f[2]])
+		case "open", "openin": // openin id lo hi mem target handles dirOf
 			var hs []recovery.CheckpointHandle
 			ok := true
 			for _, ref := range strings.Split(f[6], ",") {
@@ -853,8 +892,38 @@ func runC06(c lib.Case) []string {
 				out = append(out, "no-handle")
 				continue
 			}
-			w.newDB(atoi(f[1]), atoi(f[2]), atoi(f[3]), atoi(f[4]), atoi(f[5]), cfg, hs)
+			if f[0] == "openin" {
+				w.newDBIn(atoi(f[1]), atoi(f[7]), atoi(f[2]), atoi(f[3]), atoi(f[4]), atoi(f[5]), cfg, hs)
+			} else {
+				w.newDB(atoi(f[1]), atoi(f[2]), atoi(f[3]), atoi(f[4]), atoi(f[5]), cfg, hs)
+			}
 			out = append(out, "ok")
+		case "freshnames": // the files of the live tables (and of the tables they were restored from) are pairwise distinct
+			seenURI := map[string]bool{}
+			res := ""
+			first := int64(-1)
+			for _, lvl := range in.db.VerifLevels().VerifLayout() {
+				for _, ti := range lvl {
+					if seenURI[ti.URI] {
+						res = "reused " + ti.Name
+					}
+					seenURI[ti.URI] = true
+					if !in.loaded[ti.URI] {
+						if n, ok := sst.TableFileID(ti.Name); ok && (first < 0 || n < first) {
+							first = n
+						}
+					}
+				}
+			}
+			if res == "" {
+				// the smallest file number among the tables written since the open (flushes, compactions)
+				if first < 0 {
+					res = "ok first=-"
+				} else {
+					res = fmt.Sprintf("ok first=%d", first)
+				}
+			}
+			out = append(out, res)
 		case "seq":
 			out = append(out, fmt.Sprintf("seq=%d", in.db.VerifSeqNum()))
 		case "leak": // leak id cid h1,h2: entries of the instance's NEXT checkpoint that it does not own and did not inherit in a source table
@@ -871,12 +940,13 @@ func runC06(c lib.Case) []string {
 			inherited := map[string]bool{}
 			ok := true
 			for _, ref := range strings.Split(f[3], ",") {
-				sh, found := w.handles[ref]
+				dump, found := w.dumps[ref]
 				if !found {
 					ok = false
 					break
 				}
-				tbl, _ := c06DocTriples(w.dumpCkpt(sh))
+				// (the document as recorded at its checkpoint: an operator that keeps its directory rewrites the file later)
+				tbl, _ := c06DocTriples(dump)
 				for _, t := range tbl {
 					inherited[t] = true
 				}
@@ -1392,7 +1462,20 @@ func c06GenCluster(r *lib.Rng) lib.Case {
 	for _, j := range acks {
 		ops = append(ops, fmt.Sprintf("cckpt %d 1", j))
 	}
-	ops = append(ops, fmt.Sprintf("cdeploy 100 %d %d 1 %s", kgc, n, c06PermStr(acks)))
+	dep := fmt.Sprintf("cdeploy 100 %d %d 1 %s", kgc, n, c06PermStr(acks))
+	if r.Chance(1, 2) {
+		// operators that keep running take (other) positions of the new assembly: redeploy of the same Operator objects
+		cand := c06RandPerm(r, m)
+		reuse := make([]string, n)
+		for i := range reuse {
+			reuse[i] = "-"
+			if i < len(cand) && r.Chance(3, 4) {
+				reuse[i] = strconv.Itoa(cand[i])
+			}
+		}
+		dep += " " + strings.Join(reuse, ",")
+	}
+	ops = append(ops, dep)
 	newR := c06GenRanges(kgc, n)
 	newIDs := make([]int, n)
 	observe := func() {
@@ -1426,6 +1509,89 @@ func c06GenCluster(r *lib.Rng) lib.Case {
 	observe()
 	for _, id := range newIDs {
 		ops = append(ops, fmt.Sprintf("seq %d", id))
+	}
+	c.Ops = ops
+	return c
+}
+
+// c06GenSurvivor: a rescale in which operators keep running: every new instance that can restores INTO the directory of
+// one of its source instances (preferably one that was NOT acknowledged first and has written the most table files), the
+// old instances having written different numbers of tables. Then writes with flushes, reads of every restored key, the
+// next checkpoint, and a second restore from it into a fresh directory with the same reads: a table file the first
+// restore overwrote is read from disk there.
+func c06GenSurvivor(r *lib.Rng) lib.Case {
+	kgc, m := lib.Pick(r, []int{4, 8, 16, 256}), r.Range(2, 4)
+	n := r.Range(1, m)
+	c := lib.Case{Header: fmt.Sprintf("M C06 l0=9 amp=50 smallest=268435456"), Tags: []string{"survivor", fmt.Sprintf("m%d", m), fmt.Sprintf("n%d", n)}}
+	written := map[string]bool{}
+	oldR := c06GenRanges(kgc, m)
+	var ops []string
+	rounds := make([]int, m)
+	for j, rg := range oldR {
+		rounds[j] = r.Range(1, 5)
+		ops = append(ops, fmt.Sprintf("new %d %d %d 200 1048576", j, rg[0], rg[1]))
+		ops = c06StackWrites(r, ops, j, rg, rounds[j], written)
+	}
+	for j := range oldR {
+		ops = append(ops, fmt.Sprintf("ckpt %d 1", j))
+	}
+	perm := c06RandPerm(r, m)
+	newR := c06GenRanges(kgc, n)
+	used := map[int]bool{}
+	handlesOf := make([][]int, n)
+	for i, nr := range newR {
+		for _, j := range perm {
+			if c06Overlap(nr, oldR[j]) {
+				handlesOf[i] = append(handlesOf[i], j)
+			}
+		}
+		if len(handlesOf[i]) == 0 {
+			ops = append(ops, fmt.Sprintf("new %d %d %d 200 1048576", 100+i, nr[0], nr[1]))
+			continue
+		}
+		// the surviving operator: not the first acknowledged one if possible, the one with the most table files
+		dir := -1
+		for pos, j := range handlesOf[i] {
+			if used[j] {
+				continue
+			}
+			if dir == -1 || (pos > 0 && rounds[j] >= rounds[dir]) {
+				dir = j
+			}
+		}
+		hs := make([]string, len(handlesOf[i]))
+		for a, j := range handlesOf[i] {
+			hs[a] = fmt.Sprintf("%d:1", j)
+		}
+		if dir >= 0 {
+			used[dir] = true
+			ops = append(ops, fmt.Sprintf("openin %d %d %d 200 1048576 %s %d", 100+i, nr[0], nr[1], strings.Join(hs, ","), dir))
+		} else {
+			ops = append(ops, fmt.Sprintf("open %d %d %d 200 1048576 %s", 100+i, nr[0], nr[1], strings.Join(hs, ",")))
+		}
+	}
+	observe := func(base int) {
+		for i, nr := range newR {
+			ops = c06Observe(ops, base+i, nr, kgc, written)
+		}
+	}
+	observe(100)
+	for i, nr := range newR {
+		ops = c06StackWrites(r, ops, 100+i, nr, r.Range(2, 4), written)
+		if nr[1] > nr[0] {
+			ops = append(ops, fmt.Sprintf("freshnames %d", 100+i))
+		}
+	}
+	observe(100)
+	for i := range newR {
+		ops = append(ops, fmt.Sprintf("ckpt %d 2", 100+i))
+	}
+	for i, nr := range newR {
+		ops = append(ops, fmt.Sprintf("open %d %d %d 1048576 1048576 %d:2", 200+i, nr[0], nr[1], 100+i))
+	}
+	observe(200)
+	for i := range newR {
+		ops = append(ops, fmt.Sprintf("seq %d", 100+i), fmt.Sprintf("seq %d", 200+i))
 	}
 	c.Ops = ops
 	return c
@@ -1581,6 +1747,27 @@ func propC06() *lib.Prop {
 				"open 201 0 256 1048576 1048576 101:2,100:2", "get 201 " + k47, "scan 201 " + lib.Hex(c06Key(0x0a, nil)),
 				"seq 200", "seq 201",
 			}})
+			// redeploy of running operators: two operators, same counts, positions exchanged (the operator list the job sends
+			// changed order): each must take the range of its NEW position and the checkpoints assigned to it
+			cs = append(cs, lib.Case{Header: "M C06 l0=2 amp=50 smallest=1", Tags: []string{"cluster", "cluster-redeploy"}, Ops: []string{
+				"cnew 0 8 2", "put 0 000161 aa", "put 1 000561 bb", "hput 0 8 7330 61 01 dd", "hput 1 8 7330 61 01 dd", "rot 0", "rot 1",
+				"cckpt 0 1", "cckpt 1 1", "cdeploy 100 8 2 1 0,1 1,0",
+				"scanown 100", "scanown 101", "get 100 000161", "get 101 000561", "sget 100 8 7330", "sget 101 8 7330",
+				"hput 100 8 7330 61 02 ee", "hput 101 8 7330 61 02 ee", "put 100 000261 cc", "rot 100", "freshnames 100", "scanown 100", "seq 100", "seq 101",
+			}})
+			// open finding D72 on the real code (the D50 family): two running operators are redeployed from job checkpoint 1 with
+			// their positions exchanged (each keeps its directory, restores the other's handle); operator 0's next checkpoint
+			// rewrites the `checkpoints` document of its directory, so its retained handle of checkpoint 1 now resolves to the
+			// other operator's state: a redeploy from checkpoint 1 again loses its key. Tagged D72 only on instance 200.
+			cs = append(cs, lib.Case{Header: "M C06 l0=2 amp=50 smallest=268435456", Tags: []string{"D72-witness"}, Ops: []string{
+				"new 0 0 128 1048576 1048576", "put 0 000161 7661", "new 1 128 256 1048576 1048576", "put 1 008162 7662",
+				"ckpt 0 1", "ckpt 1 1",
+				"openin 100 128 256 1048576 1048576 1:1 0", "openin 101 0 128 1048576 1048576 0:1 1",
+				"get 100 008162", "get 101 000161", "scanown 100", "scanown 101",
+				"ckpt 100 2",
+				"open 200 0 128 1048576 1048576 0:1", "get 200 000161", "scanown 200",
+				"open 201 128 256 1048576 1048576 1:1", "get 201 008162", "scanown 201",
+			}})
 			// scale-in form of D6: the source with the highest sequence numbers sits in the base level, the other source
 			// has a level-0 table with small ones; the composite's sequence number must be above BOTH (the old
 			// instances number their writes independently), else a write to a restored key loses in scans
@@ -1605,6 +1792,9 @@ func propC06() *lib.Prop {
 		Gen: func(r *lib.Rng, tier string, i int) lib.Case {
 			if i%6 == 5 {
 				return c06GenCluster(r)
+			}
+			if i%6 == 2 {
+				return c06GenSurvivor(r)
 			}
 			p := c06Plan{kgc: lib.Pick(r, []int{2, 3, 4, 5, 7, 8, 16, 256}), m: r.Range(1, 5), n: r.Range(1, 5)}
 			p.perm = c06RandPerm(r, p.m)
@@ -1643,7 +1833,7 @@ func propC06() *lib.Prop {
 		},
 		Impl: runC06,
 		MObs: func(op string) bool {
-			return strings.HasPrefix(op, "ckpt ") || strings.HasPrefix(op, "cckpt ") || strings.HasPrefix(op, "cnew ") || strings.HasPrefix(op, "rot ") || strings.HasPrefix(op, "open ") || strings.HasPrefix(op, "seq ") || strings.HasPrefix(op, "new ") || strings.HasPrefix(op, "settle ")
+			return strings.HasPrefix(op, "ckpt ") || strings.HasPrefix(op, "cckpt ") || strings.HasPrefix(op, "cnew ") || strings.HasPrefix(op, "rot ") || strings.HasPrefix(op, "open ") || strings.HasPrefix(op, "openin ") || strings.HasPrefix(op, "seq ") || strings.HasPrefix(op, "new ") || strings.HasPrefix(op, "settle ")
 		},
 		Nontrivial: func(c lib.Case, out []string) bool {
 			for _, o := range c.Ops {
